@@ -8,6 +8,11 @@ GROUPS = [
     dict(name='mpsc_push', tu='mpsc.c', harness='h_push', mode='H', functions=['mpsc_fifo_push'], unwind=3, exact_unwind=True),
     dict(name='spsc_trypop', tu='spsc.c', harness='h_trypop', mode='H', functions=['spsc_fifo_trypop'], unwind=3, exact_unwind=True),
     dict(name='spsc_push', tu='spsc.c', harness='h_push', mode='H', functions=['spsc_fifo_push'], unwind=3, exact_unwind=True),
+    dict(name='mpsc_init', tu='mpsc.c', harness='h_init', mode='H', functions=['mpsc_fifo_init'], unwind=2, exact_unwind=True),
+    dict(name='spsc_init', tu='spsc.c', harness='h_init', mode='H', functions=['spsc_fifo_init'], unwind=2, exact_unwind=True),
+] + [
+    dict(name='mpscr_create_n%d' % n, tu='mpscr.c', harness='h_create', mode='H', functions=['mpscr_fifo_create', 'spsc_fifo_init', 'spsc_fifo_destroy'], defs=['-DNPROD=%d' % n], unwind=n + 3,
+         bounded=True, bound='%d producers' % n) for n in [1, 2, 3]
 ] + [
     dict(name='mpscr_trypop_n%d' % n, tu='mpscr.c', harness='h_trypop', mode='H', functions=['mpscr_fifo_trypop'], defs=['-DNPROD=%d' % n], unwind=n + 2,
          bounded=True, bound='%d producers (all 2^64 counter values; the scan loop is fully unwound)' % n, thorough_only=(n in NT), timeout=900, cbmc_flags=['--sat-solver', 'cadical']) for n in NQ + NT
